@@ -11,6 +11,14 @@
 //! Wave 4: rank(tol) with tol exactly on a singular value (hand-set and computed), frames of left- and right-handed basis
 //! triples, iso3_from_xyo with a nearly perpendicular second vector (tolerance 1e-12), from_points on point sets far from
 //! the origin relative to their extent (exact dyadic coordinates, offset / extent 1e5 .. 3e7).
+//! Wave 5 (parameter-space audit, notes/w5_audit_C19.md): exactly rank-deficient point sets of every rank in general
+//! orientations with irregular coordinates and 5 .. 4097 points (oracles independent of the reported singular values:
+//! projections on the returned axes, total scatter, eigen-structure invariants of the scatter matrix); hand-set singular
+//! values and n for variances / stdevs; basis coordinates on hand-set bases; small and medium clouds; power-of-two
+//! rescalings; weights all one / mixed magnitude / nearly equal; tied singular values; duplicated points; frame
+//! constructors with tiny / huge / unequal lengths, nearly parallel and anti-parallel second arguments, far origins,
+//! frames within 1e-11 .. 1e-3 rad of axis-aligned ones; by-value From impls; planes from every order of three exact
+//! points with edge 2^-27 .. 2^20 and up to 2^21 from the origin, planes through points up to 1e9 from the origin.
 //! Singular vectors are compared up to sign, and only where the singular values are separated (the SVD does not
 //! determine them otherwise).  All float comparisons: 1e-9 relative (`close`).
 use super::c03::isos3;
@@ -630,8 +638,503 @@ fn far_sets(r: &mut Report) {
     } }
 }
 
+// ------------------------------------------------------------------------------------------------ wave 5 additions
+/// EXACTLY rank-deficient point sets of every rank (3D: coincident, collinear, planar; 2D: coincident, collinear) in
+/// GENERAL orientations with IRREGULAR coordinates: points o + a_k u + b_k v with (a_k, b_k) from four irregular
+/// tables (5, 7, 9 decimal pairs; 8 dyadic pairs), (u, v) from 12 skew decimal pairs, 3 dyadic pairs and one
+/// axis-aligned pair (thin direction first), 3 origins, scales 1e-4, 1, 1e4, unweighted and with irregular weights.
+/// Oracles, all independent of the singular values the decomposition reports:
+///  * sv_i^2 == sum of the squared projections of the (weighted) centred points on the returned axis i;
+///  * sum of sv_i^2 == total scatter; the elementary symmetric functions of the sv_i^2 are those of the eigenvalues
+///    of the 3x3 (2x2) scatter matrix (sum of principal 2x2 minors, determinant) -- closed forms from the points;
+///  * singular values invariant under rigid motions; the number of non-negligible singular values is the dimension.
+fn e2_3(s: &Matrix3<f64>) -> f64 { s[(0, 0)] * s[(1, 1)] - s[(0, 1)] * s[(1, 0)] + s[(0, 0)] * s[(2, 2)] - s[(0, 2)] * s[(2, 0)] + s[(1, 1)] * s[(2, 2)] - s[(1, 2)] * s[(2, 1)] }
+const RD_VAR: &str = "principal axes, exactly rank-deficient point set in a general orientation: sv_i^2 equals the sum of squared projections of the (weighted) centred points on axis i (relative 1e-9 of the total scatter)";
+const RD_TOTAL: &str = "principal axes, exactly rank-deficient point set in a general orientation: the squared singular values add up to the total scatter of the (weighted) centred points (relative 1e-9)";
+const RD_EIG: &str = "principal axes, exactly rank-deficient point set in a general orientation: the squared singular values have the eigen-structure invariants of the scatter matrix (sum of principal 2x2 minors, determinant; relative 1e-9)";
+const RD_RANK: &str = "principal axes, exactly rank-deficient point set in a general orientation: the rank reflects the dimension of the point set (singular values beyond the dimension are <= 1e-6 of the largest, the others are not)";
+const RD_MOTION: &str = "principal axes, exactly rank-deficient point set in a general orientation: singular values are invariant under a rigid motion of the points (relative 1e-9)";
+fn rank_deficient(r: &mut Report) {
+    let tables: [&[(f64, f64)]; 4] = [
+        &[(0.9, -0.35), (-0.65, 0.8), (0.15, 0.4), (-0.3, -0.95), (0.55, 0.1)],
+        &[(1.3, 0.2), (-0.45, 0.95), (0.25, -0.6), (-1.1, -0.15), (0.7, 0.85), (-0.05, -1.2), (0.35, 0.05)],
+        &[(0.12, 0.77), (-0.93, 0.41), (0.58, -0.29), (1.41, 1.07), (-0.36, -0.88), (0.04, 0.19), (-1.22, 0.63), (0.81, -1.15), (0.27, 0.52)],
+        &[(0.5625, -0.1875), (-0.4375, 0.8125), (0.125, 0.4375), (-0.3125, -0.9375), (0.6875, 0.0625), (-0.0625, -0.5625), (0.75, 0.9375), (-1.0, 0.3125)],
+    ];
+    let wtab = [1.0, 2.5, 0.75, 3.2, 1.6, 0.5, 2.1, 1.25, 3.75];
+    let mut pairs: Vec<(Vector3, Vector3)> = (0..12).map(|k| { let k = k as f64; (v3(0.55 - 0.09 * k, 0.4 + 0.03 * k, -0.65 + 0.11 * k), v3(-0.3 + 0.02 * k, 0.8 - 0.07 * k, 0.35 + 0.04 * k)) }).collect();
+    pairs.extend([(v3(1.0, 0.5, -0.25), v3(-0.5, 1.0, 0.75)), (v3(0.25, -1.0, 0.5), v3(1.0, 0.25, 0.125)), (v3(0.375, 0.375, 1.0), v3(1.0, -0.625, 0.125)), (v3(0.0, 0.0, 2.0), v3(0.0, 1.0, 0.0))]);
+    let origins = [p3(0.0, 0.0, 0.0), p3(3.1, -7.4, 2.2), p3(-120.5, 64.25, 1000.0)];
+    let isos = isos3();
+    for (ti, tab) in tables.iter().enumerate() { for (pi, (u, v)) in pairs.iter().enumerate() { for o in origins.iter() { for scale in [1.0, 1e-4, 1e4] { for weighted in [false, true] { for dim in [2usize, 1, 0] {
+        r.case();
+        let pts: Vec<Point3> = tab.iter().map(|(a, b)| o + u * (scale * *a * if dim >= 1 { 1.0 } else { 0.0 }) + v * (scale * *b * if dim >= 2 { 1.0 } else { 0.0 })).collect();
+        let n = pts.len();
+        let wv: Vec<f64> = (0..n).map(|i| wtab[i]).collect();
+        let w: Option<&[f64]> = if weighted { Some(&wv) } else { None };
+        let d = || format!("SvdBasis3::from_points(o + a_k u + b_k v: table {} ({} points), u = {:?}, v = {:?}, o = {:?}, scale {:e}, dimension {}, {}) = {:?}", ti, n, u.as_slice(), v.as_slice(), (o.x, o.y, o.z), scale, dim, if weighted { "weights 1, 2.5, 0.75, 3.2, 1.6, 0.5, 2.1, 1.25, 3.75" } else { "no weights" }, pts.iter().map(|p| (p.x, p.y, p.z)).collect::<Vec<_>>());
+        let b = SvdBasis3::from_points(&pts, w);
+        let c = wmean3(&pts, w);
+        let rows: Vec<Vector3> = pts.iter().enumerate().map(|(k, p)| (p - c) * w.map_or(1.0, |w| w[k])).collect();
+        let total: f64 = rows.iter().map(|x| x.norm_squared()).sum();
+        let mut s = Matrix3::zeros(); for x in rows.iter() { s += x * x.transpose(); }
+        // absolute floor: the centred vectors themselves carry rounding noise of 1e-16 of the coordinates
+        let floor = (1e-13 * (1.0 + c.coords.norm())).powi(2) * n as f64 * 16.0;
+        r.check(cp3(&b.center, &c) && b.n == n, "principal axes: the centre is the (weighted) mean", d);
+        basis_checks3(r, &b, &d);
+        let sq = [b.sv[0] * b.sv[0], b.sv[1] * b.sv[1], b.sv[2] * b.sv[2]];
+        for i in 0..3 {
+            let along: f64 = rows.iter().map(|x| b.basis[i].dot(x).powi(2)).sum();
+            r.check((sq[i] - along).abs() <= E * total + floor, RD_VAR, || format!("{} axis {}: sv^2 = {:e}, projections {:e}", d(), i, sq[i], along));
+        }
+        r.check((sq[0] + sq[1] + sq[2] - total).abs() <= E * total + floor, RD_TOTAL, || format!("{}: sv = {:?}, total scatter {:e}", d(), b.sv, total));
+        r.check((sq[0] * sq[1] + sq[0] * sq[2] + sq[1] * sq[2] - e2_3(&s)).abs() <= E * total * total + floor * total && (sq[0] * sq[1] * sq[2] - s.determinant()).abs() <= E * total * total * total + floor * total * total, RD_EIG, || format!("{}: sv = {:?}, e2 = {:e}, det = {:e}", d(), b.sv, e2_3(&s), s.determinant()));
+        if dim == 0 { r.check(b.sv[0] * b.sv[0] <= floor, RD_RANK, || format!("{}: sv = {:?}", d(), b.sv)); }
+        else { r.check(b.rank(1e-6 * b.sv[0]) == dim && (0..3).all(|i| (b.sv[i] > 1e-6 * b.sv[0]) == (i < dim)), RD_RANK, || format!("{}: sv = {:?}", d(), b.sv)); }
+        // rigid motions: one general rotation per set plus every 9th of the family
+        for it in isos.iter().skip((ti + pi) % 9).step_by(9) {
+            let moved: Vec<Point3> = pts.iter().map(|p| it.t * p).collect();
+            let bm = SvdBasis3::from_points(&moved, w);
+            let dt = || format!("{} {}: sv {:?} vs {:?}", d(), it.name, bm.sv, b.sv);
+            // the moved coordinates are rounded: their centred vectors differ from the rotated ones by 1e-16 of the moved coordinates
+            let fl = 2e-14 * (1.0 + (it.t * c).coords.norm() + c.coords.norm());
+            for i in 0..3 { r.check((bm.sv[i] - b.sv[i]).abs() <= E * b.sv[0] + fl, RD_MOTION, dt); }
+            let cm = wmean3(&moved, w);
+            for i in 0..3 {
+                let along: f64 = moved.iter().enumerate().map(|(k, p)| (bm.basis[i].dot(&(p - cm)) * w.map_or(1.0, |w| w[k])).powi(2)).sum();
+                r.check((bm.sv[i] * bm.sv[i] - along).abs() <= E * total + floor + fl * fl * 16.0 * n as f64, RD_VAR, || format!("{} axis {}", dt(), i));
+            }
+        }
+    } } } } } }
+    // the same with many points (in-plane coordinates from the 64-bit LCG, irregular by construction): sizes across 16 .. 4097
+    for n in [17usize, 33, 64, 65, 100, 257, 1000, 2049, 4097] { for (pi, (u, v)) in pairs.iter().enumerate().step_by(3) { for weighted in [false, true] { for dim in [2usize, 1] {
+        r.case();
+        let o = origins[(pi / 3) % 3];
+        let cloud = lcg_cloud(n);
+        let pts: Vec<Point3> = cloud.iter().map(|q| o + u * (q.y * 0.4) + v * (q.z * 0.1 * if dim >= 2 { 1.0 } else { 0.0 })).collect();
+        let wv: Vec<f64> = (0..n).map(|i| wtab[i % 9]).collect();
+        let w: Option<&[f64]> = if weighted { Some(&wv) } else { None };
+        let d = || format!("SvdBasis3::from_points(o + a_k u + b_k v: {} LCG coordinate pairs, u = {:?}, v = {:?}, o = {:?}, dimension {}, {})", n, u.as_slice(), v.as_slice(), (o.x, o.y, o.z), dim, if weighted { "weights 1, 2.5, 0.75, 3.2, 1.6, 0.5, 2.1, 1.25, 3.75 repeating" } else { "no weights" });
+        let b = SvdBasis3::from_points(&pts, w);
+        let c = wmean3(&pts, w);
+        let rows: Vec<Vector3> = pts.iter().enumerate().map(|(k, p)| (p - c) * w.map_or(1.0, |w| w[k])).collect();
+        let total: f64 = rows.iter().map(|x| x.norm_squared()).sum();
+        let mut s = Matrix3::zeros(); for x in rows.iter() { s += x * x.transpose(); }
+        r.check(cp3(&b.center, &c) && b.n == n, "principal axes: the centre is the (weighted) mean", d);
+        basis_checks3(r, &b, &d);
+        let sq = [b.sv[0] * b.sv[0], b.sv[1] * b.sv[1], b.sv[2] * b.sv[2]];
+        for i in 0..3 {
+            let along: f64 = rows.iter().map(|x| b.basis[i].dot(x).powi(2)).sum();
+            r.check((sq[i] - along).abs() <= E * total, RD_VAR, || format!("{} axis {}: sv^2 = {:e}, projections {:e}", d(), i, sq[i], along));
+        }
+        r.check((sq[0] + sq[1] + sq[2] - total).abs() <= E * total, RD_TOTAL, || format!("{}: sv = {:?}, total scatter {:e}", d(), b.sv, total));
+        r.check((sq[0] * sq[1] + sq[0] * sq[2] + sq[1] * sq[2] - e2_3(&s)).abs() <= E * total * total && (sq[0] * sq[1] * sq[2] - s.determinant()).abs() <= E * total * total * total, RD_EIG, || format!("{}: sv = {:?}", d(), b.sv));
+        r.check(b.rank(1e-6 * b.sv[0]) == dim, RD_RANK, || format!("{}: sv = {:?}", d(), b.sv));
+        let it = &isos[(n + pi) % isos.len()];
+        let moved: Vec<Point3> = pts.iter().map(|p| it.t * p).collect();
+        let bm = SvdBasis3::from_points(&moved, w);
+        let fl = 2e-14 * (1.0 + (it.t * c).coords.norm() + c.coords.norm()) * (n as f64).sqrt();
+        for i in 0..3 { r.check((bm.sv[i] - b.sv[i]).abs() <= E * b.sv[0] + fl, RD_MOTION, || format!("{} {}: sv {:?} vs {:?}", d(), it.name, bm.sv, b.sv)); }
+    } } } }
+    // 2D: collinear and coincident sets
+    let dirs = [Vector2::new(0.83, -0.41), Vector2::new(-0.37, 0.92), Vector2::new(0.11, 0.29), Vector2::new(1.7, 1.3), Vector2::new(-0.62, -0.05), Vector2::new(0.02, -1.9), Vector2::new(0.75, 0.5), Vector2::new(0.0, 1.0), Vector2::new(-2.0, 0.0)];
+    let origins2 = [Point2::new(0.0, 0.0), Point2::new(1.2, 3.4), Point2::new(-250.5, 1000.0)];
+    let isos2 = super::c03::isos2();
+    for (ti, tab) in tables.iter().enumerate() { for (di, u) in dirs.iter().enumerate() { for o in origins2.iter() { for scale in [1.0, 1e-4, 1e4] { for weighted in [false, true] { for dim in [1usize, 0] {
+        r.case();
+        let pts: Vec<Point2> = tab.iter().map(|(a, _)| o + u * (scale * *a * dim as f64)).collect();
+        let n = pts.len();
+        let wv: Vec<f64> = (0..n).map(|i| wtab[i]).collect();
+        let w: Option<&[f64]> = if weighted { Some(&wv) } else { None };
+        let d = || format!("SvdBasis2::from_points(o + a_k u: table {} ({} points), u = {:?}, o = {:?}, scale {:e}, dimension {}, {}) = {:?}", ti, n, u.as_slice(), (o.x, o.y), scale, dim, if weighted { "weights 1, 2.5, 0.75, 3.2, .." } else { "no weights" }, pts.iter().map(|p| (p.x, p.y)).collect::<Vec<_>>());
+        let b = SvdBasis2::from_points(&pts, w);
+        let mut sum = Vector2::zeros(); let mut tw = 0.0;
+        for (i, p) in pts.iter().enumerate() { let wi = w.map_or(1.0, |w| w[i]); sum += p.coords * wi; tw += wi; }
+        let c = Point2::from(sum / tw);
+        let rows: Vec<Vector2> = pts.iter().enumerate().map(|(k, p)| (p - c) * w.map_or(1.0, |w| w[k])).collect();
+        let total: f64 = rows.iter().map(|x| x.norm_squared()).sum();
+        let (mut sxx, mut sxy, mut syy) = (0.0, 0.0, 0.0); for x in rows.iter() { sxx += x.x * x.x; sxy += x.x * x.y; syy += x.y * x.y; }
+        let floor = (1e-13 * (1.0 + c.coords.norm())).powi(2) * n as f64 * 16.0;
+        r.check(cp2(&b.center, &c) && b.n == n, "principal axes 2D: the centre is the (weighted) mean", d);
+        r.check((b.basis[0].dot(&b.basis[0]) - 1.0).abs() <= E && (b.basis[1].dot(&b.basis[1]) - 1.0).abs() <= E && b.basis[0].dot(&b.basis[1]).abs() <= E, "principal axes 2D: the basis vectors are orthonormal", d);
+        r.check(b.sv[0] >= b.sv[1] && b.sv[1] >= 0.0, "principal axes 2D: singular values are non-negative and non-increasing", d);
+        let sq = [b.sv[0] * b.sv[0], b.sv[1] * b.sv[1]];
+        for i in 0..2 {
+            let along: f64 = rows.iter().map(|x| b.basis[i].dot(x).powi(2)).sum();
+            r.check((sq[i] - along).abs() <= E * total + floor, RD_VAR, || format!("{} axis {}: sv^2 = {:e}, projections {:e}", d(), i, sq[i], along));
+        }
+        r.check((sq[0] + sq[1] - total).abs() <= E * total + floor, RD_TOTAL, || format!("{}: sv = {:?}, total scatter {:e}", d(), b.sv, total));
+        r.check((sq[0] * sq[1] - (sxx * syy - sxy * sxy)).abs() <= E * total * total + floor * total, RD_EIG, || format!("{}: sv = {:?}, det = {:e}", d(), b.sv, sxx * syy - sxy * sxy));
+        if dim == 0 { r.check(sq[0] <= floor, RD_RANK, || format!("{}: sv = {:?}", d(), b.sv)); }
+        else { r.check(b.rank(1e-6 * b.sv[0]) == 1 && b.sv[1] <= 1e-6 * b.sv[0], RD_RANK, || format!("{}: sv = {:?}", d(), b.sv)); }
+        for it in isos2.iter().skip((ti + di) % 5).step_by(5) {
+            let moved: Vec<Point2> = pts.iter().map(|p| it.t * p).collect();
+            let bm = SvdBasis2::from_points(&moved, w);
+            let fl = 2e-14 * (1.0 + (it.t * c).coords.norm() + c.coords.norm());
+            for i in 0..2 { r.check((bm.sv[i] - b.sv[i]).abs() <= E * b.sv[0] + fl, RD_MOTION, || format!("{} {}: sv {:?} vs {:?}", d(), it.name, bm.sv, b.sv)); }
+        }
+    } } } } } }
+}
+
+/// wave 5, parameter-space audit of the principal-axis functions: hand-set singular values with n across the internal
+/// size thresholds; basis coordinates on hand-set rotated bases of either handedness; LCG clouds of small and medium
+/// sizes in 3D and 2D; exact power-of-two rescalings; weights of mixed magnitude and all-ones weights against no
+/// weights; isotropic sets (exactly tied singular values) and duplicated points.
+fn lcg_cloud2(n: usize) -> Vec<Point2> { lcg_cloud(n).iter().map(|p| Point2::new(p.y + 0.25 * p.x, 0.125 * p.z - p.x)).collect() }
+fn svd_params(r: &mut Report) {
+    let axes = [v3(1.0, 0.0, 0.0), v3(0.0, 1.0, 0.0), v3(0.0, 0.0, 1.0)];
+    let isos = isos3();
+    // 1. basis_variances / basis_stdevs: sv^2 / n and sv / sqrt(n)
+    for n in [1usize, 2, 3, 31, 32, 33, 64, 65, 100, 1000, 1001, 4096, 65536, 16777217] { for sv in [[3.0, 2.0, 1.0], [1e-6, 1e-9, 0.0], [1e8, 5.0, 1e-3], [2.0, 2.0, 2.0]] {
+        r.case();
+        let b = SvdBasis3 { basis: axes, sv, center: p3(1.0, 2.0, 3.0), n };
+        let b2 = SvdBasis2 { basis: [Vector2::new(0.6, 0.8), Vector2::new(-0.8, 0.6)], sv: [sv[0], sv[1]], center: Point2::new(1.0, 2.0), n };
+        let (var, sd, var2, sd2) = (b.basis_variances(), b.basis_stdevs(), b2.basis_variances(), b2.basis_stdevs());
+        for i in 0..3 {
+            let want = sv[i] * sv[i] / n as f64;
+            let d = || format!("SvdBasis with hand-set sv = {:?}, n = {}: variances {:?} / {:?}, stdevs {:?} / {:?}", sv, n, var, var2, sd, sd2);
+            r.check((var[i] - want).abs() <= 1e-12 * want && (i == 2 || (var2[i] - want).abs() <= 1e-12 * want), "basis_variances: the squared singular value over the number of points (hand-set values, n across 1 .. 2^24 + 1)", d);
+            r.check((sd[i] - want.sqrt()).abs() <= 1e-12 * want.sqrt() && (i == 2 || (sd2[i] - want.sqrt()).abs() <= 1e-12 * want.sqrt()), "basis_stdevs: the singular value over the square root of the number of points (hand-set values, n across 1 .. 2^24 + 1)", d);
+        }
+    } }
+    // 2. basis coordinates on hand-set bases: p = c + t0 b0 + t1 b1 + t2 b2  <=>  coordinates (t0, t1, t2)
+    let ts = [v3(1.0, 0.0, 0.0), v3(0.0, 1.0, 0.0), v3(0.0, 0.0, 1.0), v3(0.5, -2.0, 3.25), v3(-7.0, 0.125, 0.0), v3(1e-6, 1e3, -4.0)];
+    for it in isos.iter().step_by(4) { for hand in [1.0, -1.0] { for c in [p3(0.0, 0.0, 0.0), p3(1.0, -2.0, 3.0), p3(-4096.0, 512.5, 10000.0)] {
+        r.case();
+        let basis = [it.t * axes[0], it.t * axes[1], (it.t * axes[2]) * hand];
+        let b = SvdBasis3 { basis, sv: [3.0, 2.0, 1.0], center: c, n: 5 };
+        for t in ts.iter() {
+            let v = basis[0] * t.x + basis[1] * t.y + basis[2] * t.z;
+            let p = c + v;
+            let d = || format!("SvdBasis3 with basis = world axes rotated by {} ({}-handed), centre {:?}; coordinates {:?}, point {:?}", it.name, if hand > 0.0 { "right" } else { "left" }, (c.x, c.y, c.z), t.as_slice(), p.coords.as_slice());
+            let tol = 1e-9 * (1.0 + t.norm()) + 1e-15 * c.coords.norm();
+            r.check((b.point_to_basis(&p).coords - t).norm() <= tol, "point_to_basis: the coordinates of c + t0 b0 + t1 b1 + t2 b2 are (t0, t1, t2)", d);
+            r.check((b.point_from_basis(&Point3::from(*t)) - p).norm() <= tol, "point_from_basis: the point with coordinates (t0, t1, t2) is c + t0 b0 + t1 b1 + t2 b2", d);
+            r.check((b.vec_to_basis(&v) - t).norm() <= tol, "vec_to_basis: the coordinates of t0 b0 + t1 b1 + t2 b2 are (t0, t1, t2)", d);
+        }
+    } } }
+    for (bx, by) in [(1.0, 0.0), (0.0, -1.0), (0.6, 0.8), (-0.28, 0.96)] { for hand in [1.0, -1.0] { for c in [Point2::new(0.0, 0.0), Point2::new(-4096.0, 512.5)] {
+        r.case();
+        let basis = [Vector2::new(bx, by), Vector2::new(-by, bx) * hand];
+        let b = SvdBasis2 { basis, sv: [2.0, 1.0], center: c, n: 4 };
+        for t in [Vector2::new(1.0, 0.0), Vector2::new(0.0, 1.0), Vector2::new(0.5, -2.0), Vector2::new(1e-6, 1e3)] {
+            let v = basis[0] * t.x + basis[1] * t.y; let p = c + v;
+            let d = || format!("SvdBasis2 with basis {:?}, centre {:?}; coordinates {:?}", basis, (c.x, c.y), t.as_slice());
+            let tol = 1e-9 * (1.0 + t.norm()) + 1e-15 * c.coords.norm();
+            r.check((b.point_to_basis(&p).coords - t).norm() <= tol && (b.vec_to_basis(&v) - t).norm() <= tol, "point_to_basis: the coordinates of c + t0 b0 + t1 b1 + t2 b2 are (t0, t1, t2)", d);
+            r.check((b.point_from_basis(&Point2::from(t)) - p).norm() <= tol, "point_from_basis: the point with coordinates (t0, t1, t2) is c + t0 b0 + t1 b1 + t2 b2", d);
+        }
+    } } }
+    // 3. clouds of small and medium sizes (the minimum D + 1 included)
+    for n in [4usize, 5, 7, 16, 31, 32, 33, 64, 65, 100, 255, 256, 257, 1000, 1001] { for weighted in [false, true] {
+        r.case();
+        let pts = lcg_cloud(n);
+        let wv: Vec<f64> = (0..n).map(|i| [1.0, 2.0, 0.5, 4.0, 1.5][i % 5]).collect();
+        let w: Option<&[f64]> = if weighted { Some(&wv) } else { None };
+        let d = || format!("SvdBasis3::from_points(LCG box cloud 1 x 5 x 20, n = {}, {})", n, if weighted { "weights 1, 2, 0.5, 4, 1.5 repeating" } else { "no weights" });
+        let b = SvdBasis3::from_points(&pts, w);
+        let c = wmean3(&pts, w);
+        r.check(cp3(&b.center, &c) && b.n == n, "principal axes: the centre is the (weighted) mean", d);
+        basis_checks3(r, &b, &d);
+        let rows: Vec<Vector3> = pts.iter().enumerate().map(|(k, p)| (p - c) * w.map_or(1.0, |w| w[k])).collect();
+        let total: f64 = rows.iter().map(|x| x.norm_squared()).sum();
+        let mut s = Matrix3::zeros(); for x in rows.iter() { s += x * x.transpose(); }
+        let sq = [b.sv[0] * b.sv[0], b.sv[1] * b.sv[1], b.sv[2] * b.sv[2]];
+        let var = b.basis_variances();
+        for i in 0..3 {
+            let along: f64 = rows.iter().map(|x| b.basis[i].dot(x).powi(2)).sum();
+            r.check((sq[i] - along).abs() <= E * total && (var[i] - along / n as f64).abs() <= E * total / n as f64, "principal axes: sv^2 / n equals the variance of the (weighted) centred points along each axis", || format!("{} axis {}: sv^2 = {:e}, projections {:e}", d(), i, sq[i], along));
+        }
+        r.check((sq[0] + sq[1] + sq[2] - total).abs() <= E * total && (sq[0] * sq[1] + sq[0] * sq[2] + sq[1] * sq[2] - e2_3(&s)).abs() <= E * total * total && (sq[0] * sq[1] * sq[2] - s.determinant()).abs() <= E * total * total * total,
+            "principal axes: the squared singular values have the eigen-structure invariants of the scatter matrix (trace, sum of principal 2x2 minors, determinant; relative 1e-9)", || format!("{}: sv = {:?}", d(), b.sv));
+        r.check(b.rank(1e-9 * (1.0 + b.sv[0])) == 3, "principal axes: the rank reflects the dimension of the point set", d);
+        let it = &isos[(n * 7 + 17) % isos.len()];
+        let moved: Vec<Point3> = pts.iter().map(|p| it.t * p).collect();
+        let bm = SvdBasis3::from_points(&moved, w);
+        for i in 0..3 {
+            r.check((bm.sv[i] - b.sv[i]).abs() <= E * (1.0 + b.sv[0]), "principal axes: singular values are invariant under a rigid motion of the points", || format!("{} {}: {:?} vs {:?}", d(), it.name, bm.sv, b.sv));
+            if sv_separated(&b.sv, i) { r.check(same_up_to_sign3(&bm.basis[i], &(it.t * b.basis[i])), "principal axes: the basis vectors rotate (up to sign) with a rigid motion of the points", || format!("{} {} axis {}", d(), it.name, i)); }
+        }
+        r.check(cp3(&bm.center, &(it.t * b.center)), "principal axes: the centre moves with a rigid motion of the points", || format!("{} {}", d(), it.name));
+        // 2D
+        let n2 = n - 1; // 3 is the minimum in 2D
+        let pts2 = lcg_cloud2(n2);
+        let w2: Option<&[f64]> = if weighted { Some(&wv[..n2]) } else { None };
+        let d2 = || format!("SvdBasis2::from_points(LCG cloud, n = {}, {})", n2, if weighted { "weights 1, 2, 0.5, 4, 1.5 repeating" } else { "no weights" });
+        let b2 = SvdBasis2::from_points(&pts2, w2);
+        let mut sum = Vector2::zeros(); let mut tw = 0.0;
+        for (i, p) in pts2.iter().enumerate() { let wi = w2.map_or(1.0, |w| w[i]); sum += p.coords * wi; tw += wi; }
+        let c2 = Point2::from(sum / tw);
+        let rows2: Vec<Vector2> = pts2.iter().enumerate().map(|(k, p)| (p - c2) * w2.map_or(1.0, |w| w[k])).collect();
+        let total2: f64 = rows2.iter().map(|x| x.norm_squared()).sum();
+        let (mut sxx, mut sxy, mut syy) = (0.0, 0.0, 0.0); for x in rows2.iter() { sxx += x.x * x.x; sxy += x.x * x.y; syy += x.y * x.y; }
+        r.check(cp2(&b2.center, &c2) && b2.n == n2, "principal axes 2D: the centre is the (weighted) mean", d2);
+        r.check((b2.basis[0].dot(&b2.basis[0]) - 1.0).abs() <= E && (b2.basis[1].dot(&b2.basis[1]) - 1.0).abs() <= E && b2.basis[0].dot(&b2.basis[1]).abs() <= E, "principal axes 2D: the basis vectors are orthonormal", d2);
+        r.check(b2.sv[0] >= b2.sv[1] && b2.sv[1] >= 0.0, "principal axes 2D: singular values are non-negative and non-increasing", d2);
+        for i in 0..2 {
+            let along: f64 = rows2.iter().map(|x| b2.basis[i].dot(x).powi(2)).sum();
+            r.check((b2.sv[i] * b2.sv[i] - along).abs() <= E * total2, "principal axes 2D: sv^2 / n equals the variance of the (weighted) centred points along each axis", || format!("{} axis {}", d2(), i));
+        }
+        r.check((b2.sv[0].powi(2) + b2.sv[1].powi(2) - total2).abs() <= E * total2 && (b2.sv[0].powi(2) * b2.sv[1].powi(2) - (sxx * syy - sxy * sxy)).abs() <= E * total2 * total2, "principal axes 2D: the squared singular values have the eigen-structure invariants of the scatter matrix (trace, determinant; relative 1e-9)", || format!("{}: sv = {:?}", d2(), b2.sv));
+        r.check(b2.rank(1e-9 * (1.0 + b2.sv[0])) == 2, "principal axes 2D: the rank reflects the dimension of the point set", d2);
+    } }
+    // 4. exact rescaling by powers of two (tiny and huge extents): singular values and centre scale, axes stay
+    for s in sets3().iter() { for e in [-40i32, -30, -20, -10, 10, 20, 27, 40] {
+        r.case();
+        let k = 2f64.powi(e);
+        let w = s.w.as_deref();
+        let b = SvdBasis3::from_points(&s.pts, w);
+        let scaled: Vec<Point3> = s.pts.iter().map(|p| Point3::from(p.coords * k)).collect();
+        let bk = SvdBasis3::from_points(&scaled, w);
+        let d = || format!("SvdBasis3::from_points([{}] with all coordinates x 2^{}, weights {:?}): sv {:?}, unscaled {:?}", s.name, e, s.w, bk.sv, b.sv);
+        basis_checks3(r, &bk, &d);
+        r.check((bk.center.coords - b.center.coords * k).norm() <= E * k * (1.0 + b.center.coords.norm()), "principal axes: scaling all coordinates by a power of two scales the centre", d);
+        for i in 0..3 {
+            r.check((bk.sv[i] - k * b.sv[i]).abs() <= E * k * b.sv[0] + if s.rank == 0 { 0.0 } else { 0.0 }, &nm("principal axes: scaling all coordinates by a power of two (2^-40 .. 2^40) scales the singular values by the same factor", s.rank < 3), d);
+            if sv_separated(&b.sv, i) { r.check(same_up_to_sign3(&bk.basis[i], &b.basis[i]), "principal axes: scaling all coordinates by a power of two (2^-40 .. 2^40) keeps the axes (up to sign)", || format!("{} axis {}", d(), i)); }
+        }
+        r.check(bk.rank(1e-9 * bk.sv[0]) == s.rank || s.rank == 0, "principal axes: the rank (tolerance relative to the largest singular value) does not depend on the unit of length", d);
+        if s.rank == 0 { r.check(bk.rank(0.0) == 0, "rank: coincident points have rank 0 at tolerance 0 (all singular values are exactly 0)", d); }
+    } }
+    // 5. weights: all ones against no weights; weights of mixed magnitude and with ties
+    for s in sets3().iter().filter(|s| s.w.is_none()) {
+        r.case();
+        let n = s.pts.len();
+        let b = SvdBasis3::from_points(&s.pts, None);
+        let ones = vec![1.0; n];
+        let b1 = SvdBasis3::from_points(&s.pts, Some(&ones));
+        let d = || format!("SvdBasis3::from_points([{}], Some(all ones)) vs None: sv {:?} vs {:?}", s.name, b1.sv, b.sv);
+        r.check(cp3(&b1.center, &b.center) && b1.n == b.n, "principal axes: weights that are all 1 give the centre of the unweighted decomposition", d);
+        for i in 0..3 {
+            r.check((b1.sv[i] - b.sv[i]).abs() <= E * (1.0 + b.sv[0]), &nm("principal axes: weights that are all 1 give the singular values of the unweighted decomposition", s.rank < 3), d);
+            if sv_separated(&b.sv, i) { r.check(same_up_to_sign3(&b1.basis[i], &b.basis[i]), "principal axes: weights that are all 1 give the axes of the unweighted decomposition (up to sign)", d); }
+        }
+        for wsrc in [[1e-3, 1e3, 1.0, 250.0, 0.02, 7.0], [5.0, 5.0, 1e-2, 5.0, 40.0, 40.0], [1e3, 1e-3, 1e-3, 1e3, 1e-3, 1e3],
+            // nearly equal weights (within 1%, 1e-4, 1e-6), and all equal but one
+            [1.0, 1.004, 0.997, 1.002, 0.999, 1.001], [2.0, 2.0001, 1.9999, 2.0002, 2.0, 1.9998], [0.5, 0.5000004, 0.4999997, 0.5, 0.5000002, 0.5], [3.0, 3.0, 3.0, 3.0, 3.03, 3.0]] {
+            if s.rank < 3 { continue; }
+            let wv: Vec<f64> = wsrc[..n].to_vec();
+            let bw = SvdBasis3::from_points(&s.pts, Some(&wv));
+            let c = wmean3(&s.pts, Some(&wv));
+            let dw = || format!("SvdBasis3::from_points([{}], weights {:?})", s.name, wv);
+            r.check(cp3(&bw.center, &c), "principal axes: the centre is the (weighted) mean", dw);
+            basis_checks3(r, &bw, &dw);
+            let rows: Vec<Vector3> = s.pts.iter().enumerate().map(|(k, p)| (p - c) * wv[k]).collect();
+            let total: f64 = rows.iter().map(|x| x.norm_squared()).sum();
+            let mut tot_sv = 0.0;
+            for i in 0..3 {
+                let along: f64 = rows.iter().map(|x| bw.basis[i].dot(x).powi(2)).sum();
+                tot_sv += bw.sv[i] * bw.sv[i];
+                r.check((bw.sv[i] * bw.sv[i] - along).abs() <= E * total, "principal axes: sv^2 / n equals the variance of the (weighted) centred points along each axis", || format!("{} axis {}", dw(), i));
+            }
+            r.check((tot_sv - total).abs() <= E * total, "principal axes: the squared singular values add up to the total scatter of the (weighted) centred points", dw);
+            let w2: Vec<f64> = wv.iter().map(|x| x * 2.0).collect();
+            let b2 = SvdBasis3::from_points(&s.pts, Some(&w2));
+            r.check(cp3(&b2.center, &bw.center), "principal axes: the centre is unchanged by uniformly scaling all weights", dw);
+            for i in 0..3 {
+                r.check((b2.sv[i] - 2.0 * bw.sv[i]).abs() <= E * (1.0 + 2.0 * bw.sv[0]), "principal axes: scaling all weights by k scales the singular values by k", dw);
+                if sv_separated(&bw.sv, i) { r.check(same_up_to_sign3(&b2.basis[i], &bw.basis[i]), "principal axes: the basis is unchanged (up to sign) by uniformly scaling all weights", dw); }
+            }
+        }
+    }
+    // 6. exactly tied singular values (isotropic sets) and duplicated points
+    let mut cube = vec![]; for a in [-1.0, 1.0] { for b in [-1.0, 1.0] { for c in [-1.0, 1.0] { cube.push(p3(a, b, c)); } } }
+    let disc = vec![p3(1.0, 1.0, 0.0), p3(-1.0, 1.0, 0.0), p3(-1.0, -1.0, 0.0), p3(1.0, -1.0, 0.0), p3(0.0, 0.0, 0.5), p3(0.0, 0.0, -0.5)];
+    let spindle = vec![p3(0.5, 0.5, 0.0), p3(-0.5, 0.5, 0.0), p3(-0.5, -0.5, 0.0), p3(0.5, -0.5, 0.0), p3(0.0, 0.0, 3.0), p3(0.0, 0.0, -3.0)];
+    for (name, pts, want) in [("cube corners", &cube, [8f64.sqrt(); 3]), ("square with a short axis", &disc, [2.0, 2.0, 0.5f64.sqrt()]), ("square with a long axis", &spindle, [18f64.sqrt(), 1.0, 1.0])] {
+        for it in isos.iter().step_by(3) {
+            r.case();
+            let moved: Vec<Point3> = pts.iter().map(|p| it.t * p).collect();
+            let b = SvdBasis3::from_points(&moved, None);
+            let d = || format!("SvdBasis3::from_points({} moved by {}): sv = {:?}", name, it.name, b.sv);
+            basis_checks3(r, &b, &d);
+            let c = wmean3(&moved, None);
+            for i in 0..3 {
+                r.check(close(b.sv[i], want[i]), "principal axes, exactly tied singular values (cube, square with a short / long axis): the singular values are those of the set", d);
+                let along: f64 = moved.iter().map(|p| b.basis[i].dot(&(p - c)).powi(2)).sum();
+                r.check((b.sv[i] * b.sv[i] - along).abs() <= E * (1.0 + along), "principal axes: sv^2 / n equals the variance of the (weighted) centred points along each axis", || format!("{} axis {}", d(), i));
+            }
+            if want[0] != want[1] { r.check(same_up_to_sign3(&b.basis[0], &(it.t * axes[2])), "principal axes, exactly tied singular values: the separated axis is the axis of the set", d); }
+            if want[1] != want[2] { r.check(same_up_to_sign3(&b.basis[2], &(it.t * axes[2])), "principal axes, exactly tied singular values: the separated axis is the axis of the set", d); }
+            r.check(b.rank(1e-9) == 3 && cp3(&b.center, &(it.t * p3(0.0, 0.0, 0.0))), "principal axes: the rank reflects the dimension of the point set", d);
+        }
+    }
+    for s in sets3().iter().filter(|s| s.w.is_none()) {
+        r.case();
+        let b = SvdBasis3::from_points(&s.pts, None);
+        let mut twice = s.pts.clone(); twice.extend(s.pts.iter().rev().cloned());
+        let b2 = SvdBasis3::from_points(&twice, None);
+        let d = || format!("SvdBasis3::from_points([{}] with every point listed twice): sv {:?} vs {:?} once", s.name, b2.sv, b.sv);
+        r.check(cp3(&b2.center, &b.center) && b2.n == 2 * b.n, "principal axes, every point listed twice: same centre, n doubled", d);
+        basis_checks3(r, &b2, &d);
+        for i in 0..3 {
+            r.check((b2.sv[i] - 2f64.sqrt() * b.sv[i]).abs() <= E * (1.0 + b.sv[0]), &nm("principal axes, every point listed twice: singular values grow by sqrt 2 (the variances stay)", s.rank < 3), d);
+            if sv_separated(&b.sv, i) { r.check(same_up_to_sign3(&b2.basis[i], &b.basis[i]), "principal axes, every point listed twice: same axes (up to sign)", d); }
+        }
+    }
+}
+
+/// wave 5, frame constructors: tiny / huge / very unequal argument lengths, second arguments nearly parallel and nearly
+/// anti-parallel to the first (angles 1e-5, 1e-7), far origins; iso3_from_basis with skew, unnormalised second vectors
+/// and far origins; the by-value From impls; iso2_from_basis over origins and lengths.
+fn frames_params(r: &mut Report) {
+    type Ctor = fn(&Vector3, &Vector3, Option<Point3>) -> crate::Result<Iso3>;
+    let ctors: [(&str, Ctor, usize, usize); 6] = [
+        ("try_from_basis_xy", Iso3::try_from_basis_xy, 0, 1), ("try_from_basis_xz", Iso3::try_from_basis_xz, 0, 2), ("try_from_basis_yz", Iso3::try_from_basis_yz, 1, 2),
+        ("try_from_basis_yx", Iso3::try_from_basis_yx, 1, 0), ("try_from_basis_zx", Iso3::try_from_basis_zx, 2, 0), ("try_from_basis_zy", Iso3::try_from_basis_zy, 2, 1),
+    ];
+    let axes = [v3(1.0, 0.0, 0.0), v3(0.0, 1.0, 0.0), v3(0.0, 0.0, 1.0)];
+    // exactly orthogonal integer pairs (a, p): the second argument is  s a + t p
+    let ortho = [(v3(1.0, 2.0, 2.0), v3(2.0, 1.0, -2.0)), (v3(0.0, 0.0, 1.0), v3(1.0, 0.0, 0.0)), (v3(3.0, 4.0, 0.0), v3(-4.0, 3.0, 0.0)), (v3(2.0, -1.0, 2.0), v3(1.0, 2.0, 0.0)), (v3(-1.0, 1.0, 0.5), v3(1.0, 1.0, 0.0)), (v3(0.0, -2.0, 0.0), v3(0.0, 0.0, 1.0))];
+    let lens = [(1.0, 1.0), (1e-6, 1.0), (1.0, 1e-6), (1e6, 1e-3), (1e-3, 1e8), (1e-6, 1e-6), (1e9, 1e9)];
+    let mixes = [(0.0, 1.0), (1.0, 1.0), (-2.0, 0.5), (1.0, 1e-5), (-1.0, 1e-5), (3.0, 1e-7), (-1.0, 1e-7), (1.0, -1e-5)];
+    let origins = [None, Some(p3(1e6, -2.5e6, 3e6)), Some(p3(1e8, 0.0, -1e8)), Some(p3(-0.0, 0.0, 1e-9))];
+    for (cname, ctor, pi, si) in ctors.iter() { for (a0, p0) in ortho.iter() { for (la, lb) in lens.iter() { for (sa, tp) in mixes.iter() { for o in origins.iter() {
+        let a = a0 * *la;
+        let b = (a0 * *sa + p0 * *tp) * *lb;
+        let prim = a0.normalize();
+        let sec = p0.normalize() * if *tp > 0.0 { 1.0 } else { -1.0 };
+        let mut cols = [Vector3::zeros(); 3];
+        let sign = if (pi + 1) % 3 == *si { 1.0 } else { -1.0 };
+        cols[*pi] = prim; cols[*si] = sec; cols[3 - pi - si] = prim.cross(&sec) * sign;
+        let want = Matrix3::from_columns(&cols);
+        if is_half_turn(&want) { continue; }
+        // the constructors reject a second argument whose part orthogonal to the first is shorter than 1e-10: stay clear of it
+        if lb * tp.abs() * p0.norm() < 1e-8 { continue; }
+        r.case();
+        let d = || format!("Iso3::{}({:?}, {:?}, {:?})  [a = {:e} * {:?}, b = {:e} * ({} a + {:e} p), p = {:?} orthogonal to a]", cname, a.as_slice(), b.as_slice(), o.map(|p| (p.x, p.y, p.z)), la, a0.as_slice(), lb, sa, tp, p0.as_slice());
+        match ctor(&a, &b, *o) {
+            Err(_) => r.check(false, "frame constructor succeeds for non-parallel, non-zero vectors", d),
+            Ok(f) => {
+                let m: Matrix3<f64> = f.rotation.to_rotation_matrix().into_inner();
+                let og = o.unwrap_or(p3(0.0, 0.0, 0.0));
+                r.check((f * Point3::origin() - og).norm() <= E * og.coords.norm(), "frame constructor maps the origin to the given point", d);
+                r.check(((m.transpose() * m) - Matrix3::identity()).norm() <= E, "frame constructor returns an orthonormal frame", d);
+                r.check(close(m.determinant(), 1.0), "frame constructor returns a proper (right-handed) rotation", d);
+                let fp = f.rotation * axes[*pi]; let fs = f.rotation * axes[*si];
+                r.check(cv3(&fp, &prim), "frame constructor: the primary axis is exactly the normalised first argument", d);
+                r.check(fs.dot(&b) > 0.0, "frame constructor: the secondary axis lies on the side of the second argument", d);
+                // the direction of the secondary axis is conditioned by the angle between the arguments
+                let tol = 1e-9 + 1e-13 * (sa.abs() / tp.abs());
+                r.check((fs - sec).norm() <= tol && (m - want).norm() <= 3.0 * tol, "frame constructor returns the frame (normalised first argument, orthogonalised second argument, right-handed third axis)", d);
+            }
+        }
+    } } } } }
+    // requested frame within 1e-12 .. 1e-3 rad of the world axes (and of the other 23 axis-aligned frames): first = e_i + eps e_j,
+    // second = e_j - eps e_i (exactly orthogonal), compared to 1e-12
+    let signed_axes = [v3(1.0, 0.0, 0.0), v3(0.0, 1.0, 0.0), v3(0.0, 0.0, 1.0), v3(-1.0, 0.0, 0.0), v3(0.0, -1.0, 0.0), v3(0.0, 0.0, -1.0)];
+    for (cname, ctor, pi, si) in ctors.iter() { for ea in signed_axes.iter() { for eb in signed_axes.iter() { for eps in [1e-3, 1e-5, 1e-7, 1e-9, 1e-11, -1e-6, -1e-10] { for o in [None, Some(p3(1.0, 2.0, 3.0))] {
+        if ea.cross(eb).norm() < 0.5 { continue; }
+        let a = ea + eb * eps; let b = eb - ea * eps;
+        let prim = a.normalize(); let sec = b.normalize();
+        let mut cols = [Vector3::zeros(); 3];
+        let sign = if (pi + 1) % 3 == *si { 1.0 } else { -1.0 };
+        cols[*pi] = prim; cols[*si] = sec; cols[3 - pi - si] = prim.cross(&sec) * sign;
+        let want = Matrix3::from_columns(&cols);
+        if (want.trace() + 1.0).abs() < 1e-2 { continue; } // half turns have their own clause
+        r.case();
+        let d = || format!("Iso3::{}({:?}, {:?}, {:?}) (an axis-aligned frame turned by {:e} rad)", cname, a.as_slice(), b.as_slice(), o.map(|p| (p.x, p.y, p.z)), eps);
+        match ctor(&a, &b, o) {
+            Err(_) => r.check(false, "frame constructor succeeds for non-parallel, non-zero vectors", d),
+            Ok(f) => {
+                let m: Matrix3<f64> = f.rotation.to_rotation_matrix().into_inner();
+                r.check((m - want).norm() <= 1e-12 && ((m.transpose() * m) - Matrix3::identity()).norm() <= 1e-12, "frame constructor, requested frame within 1e-11 .. 1e-3 rad of an axis-aligned frame: returns that frame to 1e-12 (primary = normalised first argument, secondary = normalised second argument)", d);
+                r.check(cp3(&(f * Point3::origin()), &o.unwrap_or(p3(0.0, 0.0, 0.0))), "frame constructor maps the origin to the given point", d);
+            }
+        }
+    } } } } }
+    for (a0, p0) in ortho.iter() { for (la, lb) in lens.iter().take(5) { for (sa, tp) in [(0.0, 1.0), (1.0, 1.0), (-2.0, 0.5), (0.5, -1.0)] { for o in [p3(0.0, 0.0, 0.0), p3(1.0, 2.0, 3.0), p3(1e6, -2.5e6, 3e6)] {
+        let x = a0.normalize(); let y = p0.normalize() * if tp > 0.0 { 1.0 } else { -1.0 }; let z = x.cross(&y);
+        if is_half_turn(&Matrix3::from_columns(&[x, y, z])) { continue; }
+        r.case();
+        let basis = [a0 * *la, (a0 * sa + p0 * tp) * *lb, v3(7.0, -7.0, 7.0)];
+        let d = || format!("basis [{:?}, {:?}, (ignored) {:?}], origin {:?}", basis[0].as_slice(), basis[1].as_slice(), basis[2].as_slice(), (o.x, o.y, o.z));
+        let by_ref = Iso3::from(&SvdBasis3 { basis, sv: [3.0, 2.0, 1.0], center: o, n: 5 });
+        let by_val = Iso3::from(SvdBasis3 { basis, sv: [3.0, 2.0, 1.0], center: o, n: 5 });
+        for (fname, f) in [("iso3_from_basis", iso3_from_basis(&basis, &o)), ("Iso3::from(&SvdBasis3)", by_ref), ("Iso3::from(SvdBasis3)", by_val)] {
+            let dd = || format!("{}: {}", fname, d());
+            let m: Matrix3<f64> = f.rotation.to_rotation_matrix().into_inner();
+            r.check(((m.transpose() * m) - Matrix3::identity()).norm() <= E && close(m.determinant(), 1.0), "frame of a basis (skew / unnormalised second vector, far origin) is a proper rotation", dd);
+            r.check((f * o).coords.norm() <= E * (1.0 + o.coords.norm()), "frame of a basis (skew / unnormalised second vector, far origin) takes the origin point to 0", dd);
+            r.check(cv3(&(f.rotation * x), &v3(1.0, 0.0, 0.0)), "frame of a basis (skew / unnormalised second vector, far origin): the normalised first vector goes to x", dd);
+            let fy = f.rotation * basis[1].normalize();
+            r.check(fy.y > 0.0 && fy.z.abs() <= E, "frame of a basis (skew / unnormalised second vector, far origin): the second vector goes into the upper xy half-plane", dd);
+            r.check(cv3(&(f.rotation * y), &v3(0.0, 1.0, 0.0)) && cv3(&(f.rotation * z), &v3(0.0, 0.0, 1.0)), "frame of a basis (skew / unnormalised second vector, far origin): the orthogonalised second vector goes to y, first x second to z", dd);
+        }
+        let (ux, uy) = (UnitVec3::new_normalize(basis[0]), UnitVec3::new_normalize(basis[1]));
+        let f = iso3_from_xyo(&ux, &uy, &o);
+        let m: Matrix3<f64> = f.rotation.to_rotation_matrix().into_inner();
+        let fy = f.rotation * uy.into_inner();
+        r.check(((m.transpose() * m) - Matrix3::identity()).norm() <= E && close(m.determinant(), 1.0) && (f * o).coords.norm() <= E * (1.0 + o.coords.norm()) && cv3(&(f.rotation * x), &v3(1.0, 0.0, 0.0)) && fy.y > 0.0 && fy.z.abs() <= E && cv3(&(f.rotation * y), &v3(0.0, 1.0, 0.0)),
+            "iso3_from_xyo: proper rotation taking the origin point to 0, the x direction to x and the y argument into the upper xy half-plane", || format!("iso3_from_xyo(normalised {})", d()));
+    } } } }
+    // iso2_from_basis / From impls: directions x lengths x origins (the second vector is ignored)
+    for (bx, by) in [(1.0, 0.0), (0.0, 1.0), (0.0, -2.0), (3.0, 4.0), (-3.0, 4.0), (-1.0, -1.0), (1.0, -1e-3), (-1.0, 1e-3), (-0.6, 0.8), (0.28, -0.96), (1e-9, 1.0), (-1.0, 1e-7)] { for l in [1.0, 1e-8, 1e8] { for o in [Point2::new(0.0, 0.0), Point2::new(1.0, 2.0), Point2::new(1e6, -2.5e6)] { for second in [Vector2::zeros(), Vector2::new(5.0, 5.0)] {
+        r.case();
+        let b0 = Vector2::new(bx, by) * l;
+        let n = Vector2::new(bx, by).normalize();
+        let d = || format!("basis [{:?}, (ignored) {:?}], origin {:?}", b0.as_slice(), second.as_slice(), (o.x, o.y));
+        let by_ref = Iso2::from(&SvdBasis2 { basis: [b0, second], sv: [2.0, 1.0], center: o, n: 4 });
+        let by_val = Iso2::from(SvdBasis2 { basis: [b0, second], sv: [2.0, 1.0], center: o, n: 4 });
+        for (fname, f) in [("iso2_from_basis", iso2_from_basis(&[b0, second], &o)), ("Iso2::from(&SvdBasis2)", by_ref), ("Iso2::from(SvdBasis2)", by_val)] {
+            let ok = (f * o).coords.norm() <= E * (1.0 + o.coords.norm()) && cv2(&(f.rotation * n), &Vector2::new(1.0, 0.0)) && cv2(&(f.rotation * Vector2::new(-n.y, n.x)), &Vector2::new(0.0, 1.0));
+            r.check(ok, "iso2_from_basis takes the origin to 0, the first axis to x and is right-handed", || format!("{}: {}", fname, d()));
+        }
+    } } } }
+}
+
+/// wave 5, planes: every order of the three defining points; triangles with exact dyadic coordinates of edge 2^-27 ..
+/// 2^20 at the origin and of edge 1 .. 64 far from it (2^20); point-and-normal planes through far points; inversion
+/// twice; queries exactly on the plane.
+fn planes_params(r: &mut Report) {
+    let shapes = [(v3(1.0, 0.0, 0.5), v3(0.0, 1.0, 0.25)), (v3(3.0, -2.0, 2.0), v3(-6.0, -1.0, 4.0)), (v3(0.0, 2.0, 0.0), v3(0.0, 0.0, -1.5)), (v3(0.0, 5.0, 4.0), v3(-4.0, 0.0, 0.0)), (v3(1.0, 0.0, 0.0), v3(0.5, 0.0078125, 0.0)), (v3(1.0, 8.0, -3.0), v3(1.0, 8.0, -2.5))];
+    let cases: [(f64, Point3); 9] = [(2f64.powi(-27), p3(0.0, 0.0, 0.0)), (2f64.powi(-20), p3(0.0, 0.0, 0.0)), (2f64.powi(-10), p3(0.0, 0.0, 0.0)), (1.0, p3(0.0, 0.0, 0.0)), (1024.0, p3(0.0, 0.0, 0.0)), (1048576.0, p3(0.0, 0.0, 0.0)),
+        (1.0, p3(1048576.0, -2097152.0, 524288.0)), (64.0, p3(-1048576.0, 0.0, 1048576.0)), (0.125, p3(1024.0, 2048.0, -512.0))];
+    for (e1, e2) in shapes.iter() { for (k, a) in cases.iter() {
+        let b = a + e1 * *k; let c = a + e2 * *k;
+        let size = (b - a).norm().max((c - a).norm());
+        let n0 = e1.cross(e2).normalize();
+        let perms: [(&Point3, &Point3, &Point3, f64); 6] = [(a, &b, &c, 1.0), (&b, &c, a, 1.0), (&c, a, &b, 1.0), (a, &c, &b, -1.0), (&c, &b, a, -1.0), (&b, a, &c, -1.0)];
+        for (p1, p2, p3_, sgn) in perms.iter() {
+            r.case();
+            let pl = Plane3::from((*p1, *p2, *p3_));
+            let d = || format!("Plane3::from(({:?}, {:?}, {:?})) (edge {:e}): normal {:?}, d {:e}", p1.coords.as_slice(), p2.coords.as_slice(), p3_.coords.as_slice(), size, pl.normal.as_slice(), pl.d);
+            // the coordinates are exact; the rounding of n.p - d is relative to the distance from the origin
+            let tol = E * size + 4e-16 * a.coords.norm();
+            r.check(close(pl.normal.norm(), 1.0), "plane from three points: the normal is a unit vector", d);
+            for p in [a, &b, &c] {
+                r.check(pl.signed_distance_to_point(p).abs() <= tol, "plane from three points (any order, edge 2^-27 .. 2^20, up to 2^21 from the origin) contains its defining points within 1e-9 of the edge length", d);
+                r.check((pl.project_point(p) - p).norm() <= tol, "plane from three points (any order, edge 2^-27 .. 2^20, up to 2^21 from the origin) projects its defining points onto themselves within 1e-9 of the edge length", d);
+            }
+            r.check((pl.normal.into_inner() - n0 * *sgn).norm() <= 1e-9, "plane from three points: the normal is along (p2 - p1) x (p3 - p1): cyclic orders give the same plane, a swap gives the inverted one", d);
+            let q = a + (e1 + e2) * (*k / 3.0) + n0 * (0.5 * size);
+            r.check((pl.signed_distance_to_point(&q) - sgn * 0.5 * size).abs() <= 1e-8 * size + tol, "plane from three points: a point half an edge above the centroid has signed distance half an edge (below for a swapped order)", d);
+            let inv = pl.inverted_normal(); let back = inv.inverted_normal();
+            r.check(back.normal == pl.normal && back.d == pl.d, "inverted_normal twice returns the plane itself (bit for bit)", d);
+            r.check(inv.signed_distance_to_point(&q) == -pl.signed_distance_to_point(&q), "inverted_normal flips the signed distance", d);
+        }
+    } }
+    // point and normal through far points; queries exactly on the plane
+    for nv in [v3(0.0, 0.0, 1.0), v3(1.0, 2.0, 2.0), v3(2.0, -1.0, 2.0), v3(-3.0, 0.0, 4.0), v3(0.0, -1.0, 0.0)] { for p in [p3(0.0, 0.0, 0.0), p3(-0.0, 0.0, -0.0), p3(1e-9, -1e-9, 1e-9), p3(3.0, -6.0, 9.0), p3(1048576.0, -2097152.0, 524288.0), p3(3e8, 6e8, -9e8)] {
+        r.case();
+        let u = UnitVec3::new_normalize(nv);
+        let d = || format!("Plane3::from((normalize {:?}, {:?}))", nv.as_slice(), p.coords.as_slice());
+        let sp = SurfacePoint3::new(p, u);
+        for (kind, pl) in [("point and normal", Plane3::from((&u, &p))), ("surface point", Plane3::from(&sp)), ("new(normal, normal . point)", Plane3::new(u, u.dot(&p.coords)))] {
+            let dd = || format!("{} [{}]", d(), kind);
+            let tol = 4e-16 * p.coords.norm();
+            r.check(pl.signed_distance_to_point(&p).abs() <= tol && (pl.project_point(&p) - p).norm() <= tol && cv3(&pl.normal, &u), "plane from point and normal / surface point (points up to 1e9 from the origin) contains its defining point, projects it onto itself and has the given normal", dd);
+            for l in [-2.0, 0.5, 1e-6, 1e6] {
+                let q = p + u.into_inner() * l;
+                r.check((pl.signed_distance_to_point(&q) - l).abs() <= E * l.abs() + 4.0 * tol && (pl.project_point(&q) - p).norm() <= E * l.abs() + 4.0 * tol, "plane from point and normal / surface point: point + l * normal has signed distance l and projects to the point", || format!("{} l = {}", dd(), l));
+                r.check(close(pl.inverted_normal().signed_distance_to_point(&q), -pl.signed_distance_to_point(&q)) && (pl.inverted_normal().project_point(&q) - pl.project_point(&q)).norm() <= E * l.abs() + 4.0 * tol, "inverted_normal flips the signed distance", || format!("{} l = {}", dd(), l));
+            }
+        }
+    } }
+}
+
 pub fn run() -> Option<Report> {
-    let mut r = Report::new("planes: 6 non-collinear point triples, 4 (normal, point) pairs / surface points, 4 queries, and 7 tilted triangle shapes scaled to edge lengths 1e-3 and 1e-4 at 4 anchor points (containment within 1e-9 of the edge); principal axes: box clouds of n in {2047, 2048, 2049, 4096} LCG points with extents 1:5:20 (unweighted and with weights 1,2,0.5,4 repeating; every 5th / 15th isometry of the family); 8 point sets in 3D (generic, skew, planar, collinear, coincident; weights from {0.5..4}) and 4 in 2D, weight scale factors {2, 0.5, 8, 1e-6, 1e-18, 1e18}, 76 (3D) / 24 (2D) isometries (quarter turns, 30/45 degrees, general axis, translations up to 1000); singular vectors compared up to sign and only where singular values are separated by > 1e-3 of the largest; frame constructors: six try_from_basis_* x 10 first x 11 second arguments (all signed axis pairs, skew, unequal lengths, one nearly parallel pair at 1e-3) x 3 origins, 12 parallel / zero pairs each (6 of them parallel along directions that are not exactly representable); iso3_from_xyo / iso3_from_basis / iso2_from_basis / Iso3::from(&SvdBasis3); all comparisons to 1e-9; wave 4: rank(tol) on hand-set singular values over {0, 5e-324, 1e-12, 0.5, 1, 1+2^-52, 2, 1e300} with tol exactly on a value and one ulp to either side, coincident dyadic points at tol 0; iso3_from_basis / Iso3::from(&SvdBasis3) on right- and left-handed orthonormal triples from 8 x 6 vector pairs x 3 origins; iso3_from_xyo with y tilted towards +-x by 1e-11 .. 9e-4 (0 < |x.y| < 1e-3) for 8 x 5 direction pairs, tolerance 1e-12; from_points on 7 slabs (3D) / 4 rectangles (2D) with exact dyadic coordinates translated by integer offsets with offset / extent 1e5 .. 3e7 (|offset| <= 6e7), weighted and not, singular values to relative 1e-9");
+    let mut r = Report::new("planes: 6 non-collinear point triples, 4 (normal, point) pairs / surface points, 4 queries, and 7 tilted triangle shapes scaled to edge lengths 1e-3 and 1e-4 at 4 anchor points (containment within 1e-9 of the edge); principal axes: box clouds of n in {2047, 2048, 2049, 4096} LCG points with extents 1:5:20 (unweighted and with weights 1,2,0.5,4 repeating; every 5th / 15th isometry of the family); 8 point sets in 3D (generic, skew, planar, collinear, coincident; weights from {0.5..4}) and 4 in 2D, weight scale factors {2, 0.5, 8, 1e-6, 1e-18, 1e18}, 76 (3D) / 24 (2D) isometries (quarter turns, 30/45 degrees, general axis, translations up to 1000); singular vectors compared up to sign and only where singular values are separated by > 1e-3 of the largest; frame constructors: six try_from_basis_* x 10 first x 11 second arguments (all signed axis pairs, skew, unequal lengths, one nearly parallel pair at 1e-3) x 3 origins, 12 parallel / zero pairs each (6 of them parallel along directions that are not exactly representable); iso3_from_xyo / iso3_from_basis / iso2_from_basis / Iso3::from(&SvdBasis3); all comparisons to 1e-9; wave 4: rank(tol) on hand-set singular values over {0, 5e-324, 1e-12, 0.5, 1, 1+2^-52, 2, 1e300} with tol exactly on a value and one ulp to either side, coincident dyadic points at tol 0; iso3_from_basis / Iso3::from(&SvdBasis3) on right- and left-handed orthonormal triples from 8 x 6 vector pairs x 3 origins; iso3_from_xyo with y tilted towards +-x by 1e-11 .. 9e-4 (0 < |x.y| < 1e-3) for 8 x 5 direction pairs, tolerance 1e-12; from_points on 7 slabs (3D) / 4 rectangles (2D) with exact dyadic coordinates translated by integer offsets with offset / extent 1e5 .. 3e7 (|offset| <= 6e7), weighted and not, singular values to relative 1e-9; wave 5: exactly rank-deficient point sets of every rank (3D: planar, collinear, coincident; 2D: collinear, coincident) o + a_k u + b_k v from 4 irregular coordinate tables (5, 7, 9 decimal and 8 dyadic pairs) x 16 (u, v) pairs in general orientations (12 skew decimal, 3 dyadic, 1 axis-aligned) x 3 origins x scales {1e-4, 1, 1e4} x {unweighted, irregular weights}, and LCG tables of n in {17, 33, 64, 65, 100, 257, 1000, 2049, 4097} points: sv_i^2 == sum of squared projections on the returned axis, sum sv^2 == total scatter, elementary symmetric functions of sv^2 == those of the scatter matrix (principal 2x2 minors, determinant), singular values beyond the dimension <= 1e-6 of the largest, invariance under every 9th isometry (all relative 1e-9 of the total scatter); hand-set singular values with n in {1 .. 2^24 + 1} for basis_variances / basis_stdevs; basis coordinates on hand-set rotated bases of either handedness (3D: every 4th isometry x 3 centres x 6 coordinate triples; 2D: 4 directions); LCG clouds of n in {4, 5, 7, 16, 31, 32, 33, 64, 65, 100, 255, 256, 257, 1000, 1001} (3D) and n - 1 (2D), weighted and not; rescaling of all coordinates by 2^e, e in {-40, -30, -20, -10, 10, 20, 27, 40}; all-ones weights against no weights, weights of mixed magnitude (1e-3 .. 1e3), nearly equal weights (1%, 1e-4, 1e-6) and all equal but one; exactly tied singular values (cube, square with a short / long axis) under every 3rd isometry; every point listed twice; frame constructors: 6 exactly orthogonal integer pairs (a, p) with second argument lb (s a + t p), lengths (la, lb) in {(1,1), (1e-6,1), (1,1e-6), (1e6,1e-3), (1e-3,1e8), (1e-6,1e-6), (1e9,1e9)}, (s, t) in {(0,1), (1,1), (-2,0.5), (+-1,1e-5), (3,1e-7), (-1,1e-7), (1,-1e-5)} (second argument within 1e-5 / 1e-7 rad of parallel and anti-parallel; orthogonal part kept above 1e-8), origins None, 1e6, 1e8, (-0, 0, 1e-9); requested frames within {1e-3, 1e-5, 1e-7, 1e-9, 1e-11, -1e-6, -1e-10} rad of the 15 axis-aligned frames that are not half turns, compared to 1e-12; iso3_from_basis / Iso3::from by reference and BY VALUE / iso3_from_xyo with skew, unnormalised second vectors and origins up to 3e6; iso2_from_basis / Iso2::from by reference and by value over 12 directions x lengths {1e-8, 1, 1e8} x 3 origins x 2 ignored second vectors; planes: every order of the three points for 6 triangle shapes (one with a 0.9 degree corner, one needle) with exact dyadic coordinates, edge 2^-27 .. 2^20 at the origin and 0.125 .. 64 at up to 2^21 from it (normal along (p2-p1) x (p3-p1): cyclic orders the same plane, swaps the inverted one; containment 1e-9 of the edge), inverted_normal twice bit for bit, point-and-normal / surface-point / new() planes through points up to 1e9 from the origin with offsets l in {-2, 0.5, 1e-6, 1e6}");
     planes(&mut r);
     small_planes(&mut r);
     svd3(&mut r);
@@ -642,5 +1145,9 @@ pub fn run() -> Option<Report> {
     handed_frames(&mut r);
     near_perpendicular_xyo(&mut r);
     far_sets(&mut r);
+    rank_deficient(&mut r);
+    svd_params(&mut r);
+    frames_params(&mut r);
+    planes_params(&mut r);
     Some(r)
 }
